@@ -286,8 +286,11 @@ def check_crate(fx, rep, crate, tag):
                   'transport read is unreachable while the message cursor says a complete frame is buffered',
                   'transport is read although a complete frame may already be buffered (no dominating message-cursor test)')
         # result of the read: the Continue payload
-        advances = [(b, i, s) for b, i, s in C.field_stores(body, RC, read_cursor)
-                    if not (s['rv']['k'] == 'use' and mir.op_is_const(s['rv']['op']))]
+        def identity_store(s_):
+            # `field = field` (one component of a tuple assignment that leaves this cursor as it is)
+            return s_['rv']['k'] == 'use' and C.trace_field(body, s_['rv']['op'], RC) == read_cursor
+        advances = [(b, i, s) for b, i, s in C.expand_phi_stores(body, C.field_stores(body, RC, read_cursor))
+                    if not (s['rv']['k'] == 'use' and mir.op_is_const(s['rv']['op'])) and not identity_store(s)]
         if not advances:
             rep.bad('R01.2', '%s|advance|%s' % (fk, tag), C.where(body, rb),
                     'no store advancing the read cursor field after ReadHalf::read: progress is not recorded in the connection')
